@@ -3,3 +3,4 @@ import SfProps.C02
 import SfProps.C13
 import SfProps.C20Adpcm
 import SfProps.C10
+import SfProps.C02Float
